@@ -130,6 +130,14 @@ class C01(Base):
         for d in tiny:
             for cfg in (proto.DEFAULT_CFG, Cfg(targets=("",)), Cfg(off="")):
                 yield self.mk(d, "<", ">", cfg, "tiny-documents")
+        # white space outside ASCII right behind the indentation of the inner lines of unwrap-blocks
+        for i in range(quick(tier, 800, 20000)):
+            g = gen.DocGen(rng, depth=rng.choice([1, 2]), p_unwrap=0.8, p_ready=0.9, p_skip=0.0, max_items=3)
+            items = g.doc()
+            if i % 2 and items and isinstance(items[0], gen.El):
+                items.insert(0, gen.Line("head"))
+            gen.unicode_space_lines(items, rng, g.unit)
+            yield self.mk(gen.render(items, final_nl=rng.random() < 0.8), "<", ">", proto.DEFAULT_CFG, "unicode-space-indent")
 
     @staticmethod
     def deep_doc(body):
@@ -250,6 +258,22 @@ class C02(Base):
         from . import common
         for (_, label, src, ds, de, cfgj) in common.realistic_docs(rng.randrange(1 << 30), tier):
             yield self.mk(src, ds, de, Cfg.from_json(cfgj), label)
+        # text behind the opening and the closing tag on their lines (block elements that share their tag lines with
+        # code), in LF, CR LF and mixed files
+        for i in range(quick(tier, 900, 20000)):
+            g = gen.DocGen(rng, depth=rng.choice([1, 2, 3]), p_unwrap=0.5, p_ready=0.75, p_skip=0.05, max_items=3)
+            items = g.doc()
+            for e in gen.all_elements(items):
+                if rng.random() < 0.5:
+                    e.post_close = rng.choice(["</div>", " x", "x", "é", " // c", ";"])
+                if rng.random() < 0.3:
+                    e.post_open = rng.choice(["<div>", " x", "é"])
+            src = gen.render(items, final_nl=rng.random() < 0.8)
+            if i % 3 == 0:
+                src = src.replace("\n", "\r\n")
+            elif i % 3 == 1:
+                src = "".join(("\r\n" if ch == "\n" and rng.random() < 0.5 else ch) for ch in src)
+            yield self.mk(src, "<", ">", proto.DEFAULT_CFG, "text-behind-tags")
         # tag names that are proper suffixes / prefixes of each other; delimiters of very different lengths
         for (_, label, src, ds, de, cfgj) in common.affix_docs(rng.randrange(1 << 30), tier):
             yield self.mk(src, ds, de, Cfg.from_json(cfgj), label)
@@ -471,6 +495,14 @@ class C05(Base):
             for off in ["+00:00", "+0900", "-03:30"]:
                 for now in (0, gen.NOW, 32503680000):
                     yield self.mk(to, off, now, False, "malformed-to")
+        # instants centuries apart: the difference does not fit 64-bit nanoseconds (about 292 years)
+        for to, now, exp in [("0001-01-01 00:00:00", gen.NOW, True), ("1601-01-01 00:00:00", gen.NOW, True), ("1707-09-22 00:00:00", gen.NOW, True),
+                             ("2000-01-01 00:00:00", 10413792000, True), ("2000-01-01 00:00:00", 253402300799, True),
+                             ("1900-01-01 00:00:00", 7014902400, True), ("1900-01-01 00:00:00", 7025875200, True),
+                             ("9999-12-31 23:59:59", gen.NOW, False), ("9999-12-31 23:59:59", -62135596800, False),
+                             ("0001-01-01 00:00:00", 253402300799, True), ("2300-01-01 00:00:00", 0, False)]:
+            for off in ["+00:00", "-0930", "+14:00"]:
+                yield self.mk(to, off, now, exp, "far-instants")
         for off in gen.MALFORMED_OFF:
             for now in (gen.NOW, 32503680000):
                 yield self.mk("2000-01-01 00:00:00", off, now, False, "malformed-off")
